@@ -34,7 +34,7 @@ PARTS = {"sim": {"check": check_case, "strategy": _strategy, "budget": {"quick":
 
 
 def vacuity(merged, tier):
-    for cls, lim in (("fills", 0.4), ("self_trades", 0.1), ("multi_fill_rounds", 0.15)):
+    for cls, lim in (("fills", 0.16), ("self_trades", 0.04), ("multi_fill_rounds", 0.06)):
         if frac(merged, "sim", cls) < lim:
             return f"class {cls} below {lim:.0%} of runs"
     return None
